@@ -1033,6 +1033,16 @@ class SymEx:
             # loop-carried heap locations: first pass to discover which are written
             if is_for:
                 bind_val = ('elem', it, lid)
+                dview = None
+                if it[0] == 'call' and it[1][0] == 'meth' and it[1][1] in ('items', 'values', 'keys') and len(it[2]) == 1 and it[2][0][0] == 'comp' and it[2][0][1] == 'dict':
+                    dview, dcomp = it[1][1], it[2][0]
+                elif it[0] == 'comp' and it[1] == 'dict':
+                    dview, dcomp = 'keys', it
+                if dview is not None and dcomp[2][0] == 'tuple' and len(dcomp[2][1]) == 2:
+                    # the views of {k(x): v(x) for x in src}, in order, are (k(x), v(x)) / v(x) / k(x) for x in src (keys taken as distinct: the table is
+                    # keyed by what identifies x)
+                    it = ('comp', 'gen', {'items': dcomp[2], 'values': dcomp[2][1][1], 'keys': dcomp[2][1][0]}[dview], dcomp[3])
+                    bind_val = ('elem', it, lid)
                 if it[0] == 'comp' and it[1] in ('gen', 'list') and len(it[3]) == 1 and not it[3][0][2] and all(z[0] == 'bv' for z in it[3][0][0]):
                     # for y in (f(x) for x in src): ...   ==   for x in src: y = f(x); ...
                     shape, src, _ = it[3][0]
@@ -1481,7 +1491,7 @@ class SymEx:
                 return ('pow', a, b)
             if isinstance(op, ast.Mod):
                 if a[0] == 'str':
-                    return ('fmt', a, b if b[0] == 'tuple' else ('tuple', (b,)))
+                    return _fold_fmt(('fmt', a, b if b[0] == 'tuple' else ('tuple', (b,))))
                 if a[0] == 'fmt':
                     return ('fmt', a, b)
                 return ('call', ('ext', 'MOD'), (a, b), ())
@@ -1739,7 +1749,7 @@ class SymEx:
                     tmpl = ''.join(v.value.replace('%', '%%') if isinstance(v, ast.Constant) else '%s' for v in e.values)
                 else:
                     tmpl = ''.join(v.value if isinstance(v, ast.Constant) else '{!spec}' for v in e.values)
-                out.append((x, ('fmt', ('str', tmpl), ('tuple', tuple(vs)))))
+                out.append((x, _fold_fmt(('fmt', ('str', tmpl), ('tuple', tuple(vs))))))
             return out
         if isinstance(e, ast.FormattedValue):
             return self.ev(e.value, st)
@@ -1833,6 +1843,9 @@ class SymEx:
             for kk, v in b[1]:
                 if kk == i:
                     return v
+        if b[0] == 'call' and b[1] == ('ext', 'SETITEM') and len(b[2]) == 3 and b[2][1] == i:
+            # what was just stored under this very key
+            return b[2][2]
         if b[0] == 'new' and b[1] in NT_FIELDS and i[0] == 'num' and i[1].denominator == 1:
             fs = NT_FIELDS[b[1]]
             n = int(i[1])
@@ -1910,6 +1923,9 @@ class SymEx:
             k = ('attr', b, e.attr)
             if k in x.heap:
                 out.append((x, x.heap[k]))
+                continue
+            if b[0] == 'fn' and e.attr in ('__name__', '__qualname__') and isinstance(e.ctx, ast.Load):
+                out.append((x, ('str', b[1].split('.')[-1] if e.attr == '__name__' else b[1])))
                 continue
             if b[0] == 'mod':
                 q = '%s.%s' % (b[1], e.attr)
@@ -2561,7 +2577,7 @@ class SymEx:
                              result=res, node=e, recv=None, kwargs=dict(kwargs)))
                 return [(x, res)]
             if f.attr == 'format' and recv is not None and recv[0] == 'str' and not kws and recv[1].count('{}') == len(args) and '{' not in recv[1].replace('{}', ''):
-                return [(st, ('fmt', ('str', recv[1].replace('%', '%%').replace('{}', '%s')), ('tuple', tuple(args))))]
+                return [(st, _fold_fmt(('fmt', ('str', recv[1].replace('%', '%%').replace('{}', '%s')), ('tuple', tuple(args)))))]
             if f.attr == 'get' and 1 <= len(args) <= 2 and not kws and recv is not None and recv[0] == 'dict' and _const_keyed(recv) and \
                     args[0][0] not in ('str', 'num', 'const'):
                 return self.dict_lookup(recv, args[0], st, e, args[1] if len(args) == 2 else NONE)
@@ -3306,7 +3322,19 @@ def _concat(a, b):
     tb, ab = parts(b)
     if not aa and not ab:
         return ('str', (ta + tb).replace('%%', '%'))
-    return ('fmt', ('str', ta + tb), ('tuple', tuple(aa) + tuple(ab)))
+    return _fold_fmt(('fmt', ('str', ta + tb), ('tuple', tuple(aa) + tuple(ab))))
+
+
+def _fold_fmt(t):
+    """a template filled with string constants only is a string constant ('get_%s' % 'bid' is 'get_bid')"""
+    if t[0] == 'fmt' and t[1][0] == 'str' and t[2][0] == 'tuple' and t[2][1] and all(a_[0] == 'str' for a_ in t[2][1]):
+        tmpl = t[1][1]
+        if tmpl.replace('%%', '').count('%s') == len(t[2][1]) and tmpl.replace('%%', '').count('%') == len(t[2][1]):
+            try:
+                return ('str', tmpl % tuple(a_[1] for a_ in t[2][1]))
+            except Exception:
+                return t
+    return t
 
 
 def _unget(b):
